@@ -55,7 +55,7 @@ pub fn parse_model_dump(sig: &Sig, line: &str) -> RawDump {
         let Some((args, out)) = rest.split_once('>') else { continue };
         let is_func = f >= sig.ctors.len() && f < sig.ctors.len() + sig.funcs.len();
         let is_rel = f >= sig.ctors.len() + sig.funcs.len();
-        let a: Vec<V> = if args.is_empty() { vec![] } else { args.split(',').map(|x| V::Id(x.parse().unwrap_or(0))).collect() };
+        let a: Vec<V> = if args.is_empty() { vec![] } else { args.split(',').enumerate().map(|(j, x)| if f < sig.ctors.len() && !sig.kinds[f].get(j).copied().unwrap_or(true) { V::Int(x.parse().unwrap_or(0)) } else { V::Id(x.parse().unwrap_or(0)) }).collect() };
         let o = if is_func { V::Int(out.parse().unwrap_or(0)) } else if is_rel { V::Unit } else { V::Id(out.parse().unwrap_or(0)) };
         if f < tables.len() { tables[f].rows.push(RawRow { args: a, out: o, sub }); }
     }
